@@ -244,6 +244,11 @@ func gen(t *rapid.T) world {
 				o.batched = o.options == nil && rapid.IntRange(0, 2).Draw(t, "batched") > 0
 				if o.batched && !o.inTx {
 					extra := rapid.IntRange(0, 3).Draw(t, "groupextra")
+					big := rapid.IntRange(0, 7).Draw(t, "biggroup") == 0
+					if big {
+						// a large batch: 17-24 calls whose filters name the shard and a different id each
+						extra = rapid.IntRange(16, 23).Draw(t, "bigextra")
+					}
 					if extra > 0 {
 						group++
 						o.group = group
@@ -252,6 +257,23 @@ func gen(t *rapid.T) world {
 						for k := 0; k < extra; k++ {
 							o2 := op{kind: rapid.SampledFrom([]string{"Query", "QueryRow"}).Draw(t, "gkind"), batched: true, group: group}
 							genSelect(&o2)
+							if big {
+								// one shape for the whole batch: the limit columns and an id
+								o2.filter = sqlgen.Filter{}
+								for c, v := range w.shard.filter() {
+									o2.filter[c] = v
+								}
+								if w.dyn != nil {
+									for c, v := range w.dyn.filter() {
+										o2.filter[c] = v
+									}
+								}
+								if w.table == "row_c" {
+									o2.filter["key"] = fmt.Sprintf("k%d", 10+k)
+								} else {
+									o2.filter["id"] = int64(10 + k)
+								}
+							}
 							o2.descr = describeOp(o2)
 							if k < extra-1 {
 								w.ops = append(w.ops, o2)
